@@ -27,7 +27,7 @@ PROPS = {
     "C08": P("appmon", shards=(6, 16), floor=(10, 10)),
     "C07": P("appmon", shards=(6, 16), floor=(10, 10)),
     "C06": P("appmon", shards=(6, 16), floor=(10, 10)),
-    "C04": P("pure", shards=(8, 16), floor=(20, 20)),
+    "C04": P("pure", shards=(8, 16), floor=(20, 20), also=[{"binary": "appmon", "shards": {"quick": 3, "thorough": 8}}]),
     "C20": P("appmon", shards=(6, 16), floor=(30, 30)),
     "C19": P("appmon", shards=(3, 4), floor=(10, 10), watchdog=(2400, 14400), race={"quick": 1, "thorough": 2}, skew=True),
 }
